@@ -147,6 +147,19 @@ func c15Scenarios(tier string) []*Scenario {
 				s := w.Go("stopper", true, func() { w.Point("env:stop"); w.Log(Event{Actor: "fault", Op: "app-stop"}); t.RevSrv.Stop() })
 				w.Join(append(ths, g, s)...)
 			}, chk: func(w *World, x *Exec) []Violation { return msgOracle(w, "C15", []string{"r1", "r2"}) }},
+		{name: "blocked-handler-send||cancel||rpc", desc: "a handler is parked in SendMsg on an exhausted flow-control window while its RPC is cancelled from another goroutine; a unary RPC on the same tunnel must still run", rev: []bool{false, true},
+			run: func(w *World, t *Tun) {
+				d := StdWorkload("r1", 1, "ServerStream", []int{3}, nil)
+				d.Call.Ops = []COp{{K: "new"}, {K: "send", Size: 3}, {K: "closesend"}, {K: "waitdone"}}
+				d.Handler.Ops = []HOp{{K: "recv"}, {K: "send", Size: 100000}, {K: "return"}}
+				d.Handler.KeepGoing = true
+				ths := w.StartCallers(t, []Workload{d})
+				w.StartFault(t, "cancel:r1")
+				w.Join(ths...)
+				w.Join(w.StartCallers(t, []Workload{StdWorkload("r2", 2, "Unary", []int{3}, []int{3})})...)
+			}, chk: func(w *World, x *Exec) []Violation {
+				return completeOK(w, "C15", StdWorkload("r2", 2, "Unary", []int{3}, []int{3}))
+			}},
 		{name: "queries||open||rpc", desc: "registry queries (Ready, AllReverseTunnels, WaitForReady) from one goroutine while an RPC runs and a second reverse tunnel is opened", rev: []bool{true},
 			run: func(w *World, t *Tun) {
 				q := w.Go("query", true, func() {
@@ -205,7 +218,7 @@ func c15Scenarios(tier string) []*Scenario {
 
 func init() {
 	register(&PropDef{ID: "C15", Level: "model_checking",
-		Rule: "concurrent API programs (send || recv || Header on one RPC; two such RPCs; RPCs || Close/Err/Done; RPCs || GracefulStop || Stop; registry queries || tunnel open || RPC), forward and reverse, flow control and revision zero, with EVERY lock, atomic, condition, wait-group and channel operation of the library as a scheduling point; all schedules with <= 1 (quick) / 2 (thorough) deviations; decided: no panic, no deadlock/hang, no atomicity violation visible to the message and metadata oracles, nothing left behind. The literal data-race clause (Go memory model) is NOT decidable by schedule enumeration with the installed tools and is not claimed here (see DESIGN.md 3.C15)",
+		Rule:        "concurrent API programs (send || recv || Header on one RPC; two such RPCs; a handler parked in a window-limited send || cancel || another RPC; RPCs || Close/Err/Done; RPCs || GracefulStop || Stop; registry queries || tunnel open || RPC), forward and reverse, flow control and revision zero, with EVERY lock, atomic, condition, wait-group and channel operation of the library as a scheduling point; all schedules with <= 1 (quick) / 2 (thorough) deviations; decided: no panic, no deadlock/hang, no atomicity violation visible to the message and metadata oracles, nothing left behind. The literal data-race clause (Go memory model) is NOT decidable by schedule enumeration with the installed tools and is not claimed here (see DESIGN.md 3.C15)",
 		Assumptions: []string{"by Go's DRF-SC guarantee the sequentially consistent interleavings at synchronisation granularity enumerated here are all behaviours of the program only if it is data-race free; data-race freedom itself is outside this check"},
 		Globals:     []func(*Scenario, *World, *Exec) []Violation{ProtoMonitor},
 		Scenarios:   c15Scenarios})
